@@ -217,6 +217,24 @@ prop("C14", "exploration",
      [{"test": "TestC14", "quick": {"checks": 12000, "shards": 2, "timeout": 600},
        "thorough": {"checks": 120000, "shards": 16, "timeout": 3000}}])
 
+prop("C12", "exploration",
+     "cases = (75%) generated programs (C01 generator in a hermetic mode: no GAS / PC / code-introspection opcodes, constant "
+     "call gas, no wild jumps or raw bytes) into which well-formed journal blocks are inserted at generated points: register "
+     "a key of a fixed conflict-free family that covers all eight journal opcodes (top-level value / reference keys, nested "
+     "members with value / reference index keys), then journal it once or twice; a driver contract runs every generated "
+     "contract through CALL, STATICCALL and DELEGATECALL; all forks Frontier..Cancun. Metamorphic pair with IDENTICAL byte "
+     "layout: P has [JOP, JUMPDEST x (k-1)] at every site, P' has k POPs. Required: equal return data / success / logs / "
+     "created addresses, equal balances, nonces and storage, identical (pc, op, stack, memory hash, return data, storage "
+     "context) at every step outside the sites; every executed journal instruction succeeds and charges one non-zero "
+     "constant per opcode across the whole run (measured); leftover gas differs exactly by sum(fee + (k-1) - 2k) when no "
+     "frame forfeits gas. Runs in which some frame runs out of gas are discarded (gas would be observable). (25%) "
+     "malformed operand sets (unregistered key, offset/size out of range, offset+size beyond the word, invalid string "
+     "encoding, unknown parent, stack underflow) in top-level / CALL / STATICCALL / DELEGATECALL frames: P versus P'' with "
+     "INVALID in place of the journal instruction must have identical outcome INCLUDING gas and identical world state. "
+     "Non-trivial = a journal instruction executed in a nested or static frame, or a malformed case.",
+     [{"test": "TestC12", "quick": {"checks": 1500, "shards": 4, "timeout": 900},
+       "thorough": {"checks": 15000, "shards": 16, "timeout": 3000}}])
+
 # ---------------------------------------------------------------------------
 # Text for MANIFEST.json (gen_manifest.py)
 
@@ -316,6 +334,15 @@ MANIFEST_TEXT = {
                       "location) the statement does not prescribe accept-and-alias versus refuse; the oracle accepts either. "
                       "Order of returned slices is C16's subject.",
         "technique": "stateful model-based property testing + bounded-exhaustive enumeration (rapid)",
+    },
+    "C12": {
+        "level_text": "Metamorphic property-based testing: each generated program is executed with its journal instructions and "
+                      "with operand pops (resp. INVALID) in their place, same byte layout, and everything a contract can observe "
+                      "is compared step by step; the fee is measured and must be one constant per opcode.",
+        "design_ref": "DESIGN.md section 4, C12",
+        "level_note": "Gas is made unobservable by construction (no GAS opcode, constant call gas) and runs that hit out-of-gas are "
+                      "discarded and counted. The fee constant is measured over the run, not hard-coded.",
+        "technique": "metamorphic property-based testing with identical byte layout (rapid)",
     },
     "C13": {
         "level_text": "Property-based testing of a history invariant: the balance journal is compared with the balances the "
